@@ -15,10 +15,18 @@ type axiomText struct {
 func (g *Gen) prepareAxioms() {
 	for _, ax := range g.eng.specs.Axioms {
 		env := &Env{vars: map[string]EnvVal{}, lets: map[string]CExpr{}, heap: Heap{}, old: Heap{}, labels: map[string]*callRecord{}}
+		if ax.PkgPath != "" {
+			env.pkg = g.eng.typesPkg(ax.PkgPath)
+		}
 		cl := &Clause{Kind: "axiom", Name: ax.Name, File: ax.File}
 		before := len(g.fatal)
 		t := g.trBool(ax.Expr, env, cl)
 		if len(g.fatal) > before {
+			if ax.PkgPath != "" && env.pkg == nil {
+				// an axiom about types of a package that is not part of this program
+				g.fatal = g.fatal[:before]
+				continue
+			}
 			return
 		}
 		syms := map[string]bool{}
